@@ -9,7 +9,13 @@ package main
 //     an assertion at the head of the loop that follows them.
 // The rest of updateImports (collection, name selection, block edits) is not decided.
 
-import "strings"
+import (
+	"fmt"
+	"go/types"
+	"strings"
+
+	"golang.org/x/tools/go/ssa"
+)
 
 func init() {
 	register(&Property{
@@ -32,12 +38,14 @@ func init() {
 			}
 			us3, es3 := buildFuncUnits(p, []string{fr("updateImports")}, nil)
 			us, es = append(us, us3...), append(es, es3...)
+			us4, es4 := buildImportPathRule(p)
+			us, es = append(us, us4...), append(es, es4...)
 			us2, es2 := buildFuncUnits(p, []string{pkgDecorator + ".lemmaOrderIrreflexive", pkgDecorator + ".lemmaOrderAsymmetric", pkgDecorator + ".lemmaOrderTransitive", pkgDecorator + ".lemmaOrderTotal"}, nil)
 			return append(us, us2...), append(es, es2...)
 		},
 		Select: func(n string) bool {
 			return strings.Contains(n, "#imports:") || strings.Contains(n, "lemmaOrder") || strings.HasSuffix(n, "#ensures:plain_ident") ||
-				strings.Contains(n, "updateImports#loop") || strings.Contains(n, "updateImports$3#loop")
+				strings.Contains(n, "updateImports#loop") || strings.Contains(n, "updateImports$3#loop") || strings.Contains(n, "#imports-path:")
 		},
 		Siblings: "C03 C04 C05 C11 C12 (other labels of restoreNode/Ident)",
 		Assumptions: []string{
@@ -51,4 +59,85 @@ func init() {
 			"that the printed file type-checks",
 		},
 	})
+}
+
+// buildImportPathRule: import management identifies a package by what the import literal denotes.
+// Every read of an import literal's text (dst.BasicLit.Value reached in updateImports, its closures
+// and the package functions they call) is handed to strconv.Unquote (through mustUnquote) and to
+// nothing else: a second, home-made way of reading paths (trimming quotes, say) disagrees with the
+// first on raw-string and escaped literals, and the collection and the filtering of specs would then
+// talk about different paths.
+func buildImportPathRule(p *Program) ([]*Unit, []UnitError) {
+	ex := p.newExec("updateImports/paths")
+	root := p.fns[fr("updateImports")]
+	if root == nil {
+		return nil, []UnitError{{"updateImports/paths", "updateImports not found"}}
+	}
+	seen := map[*ssa.Function]bool{}
+	var fns []*ssa.Function
+	var visit func(fn *ssa.Function, depth int)
+	visit = func(fn *ssa.Function, depth int) {
+		if fn == nil || seen[fn] || len(fn.Blocks) == 0 || depth > 3 {
+			return
+		}
+		seen[fn] = true
+		fns = append(fns, fn)
+		for _, a := range fn.AnonFuncs {
+			visit(a, depth)
+		}
+		for _, b := range fn.Blocks {
+			for _, in := range b.Instrs {
+				if c, ok := in.(*ssa.Call); ok {
+					if callee := c.Call.StaticCallee(); callee != nil && callee.Pkg == root.Pkg && callee.Signature.Recv() == nil {
+						visit(callee, depth+1)
+					}
+				}
+			}
+		}
+	}
+	visit(root, 0)
+	reads, bad := 0, []string{}
+	for _, fn := range fns {
+		if fn.Name() == "mustUnquote" {
+			continue
+		}
+		for _, b := range fn.Blocks {
+			for _, in := range b.Instrs {
+				ld, ok := in.(*ssa.UnOp)
+				if !ok {
+					continue
+				}
+				fa, ok := ld.X.(*ssa.FieldAddr)
+				if !ok {
+					continue
+				}
+				st := deref(fa.X.Type())
+				if typeKey(st) != "dst.BasicLit" || st.Underlying().(*types.Struct).Field(fa.Field).Name() != "Value" {
+					continue
+				}
+				reads++
+				for _, r := range *ld.Referrers() {
+					switch u := r.(type) {
+					case *ssa.DebugRef:
+					case *ssa.Call:
+						if callee := u.Call.StaticCallee(); callee != nil && (callee.Name() == "mustUnquote" || callee.String() == "strconv.Unquote") {
+							continue
+						}
+						bad = append(bad, fmt.Sprintf("%s: passed to %s", ex.pos(ld.Pos()), u.Call.Value.Name()))
+					default:
+						bad = append(bad, fmt.Sprintf("%s: used by %T", ex.pos(ld.Pos()), r))
+					}
+				}
+			}
+		}
+		ex.unit.addFunc(fn.String())
+	}
+	goal := "true"
+	if len(bad) > 0 || reads == 0 {
+		goal = "false"
+	}
+	o := ex.oblige("updateImports#imports-path:literals_read_through_strconv_Unquote", "frame", "true", goal,
+		fmt.Sprintf("%d reads of import literals in %d functions; other uses: %v", reads, len(fns), bad), "")
+	o.Guard = "true"
+	return []*Unit{ex.unit}, nil
 }
